@@ -340,6 +340,33 @@ PROPS['C11'] = dict(
                "textforms projections; harness recover() wrappers. Axioms: none. PARTIAL for third-party decoders.",
 )
 
+BRANCH_NAMES['mtls'] = ['handshake-established', 'handshake-rejected', 'verify-accepted', 'verify-rejected', 'constructor', 'concurrency-runs']
+PROPS['C20'] = dict(
+    level='proof',
+    projections=[dict(name='mtls', spec_index=1, n_quick=150, n_thorough=3000, timeout=1500)],
+    rule="mtls: the full listed/unlisted matrix (client listed or not x server listed or not x one-element or padded allow-lists) and random "
+         "allow-list pairs over 2..6 keys, each a complete connection attempt (both handshakes plus one application-data round trip) between "
+         "mtls.NewTransportCredentials endpoints; six sequences over long-lived mtls.NewTLSConfig endpoints whose allow-lists are replaced between connections (listed, dropped, listed again, on either side); VerifyPeerCertificate on no certificate, one listed / unlisted Ed25519, two certificates, "
+         "an ECDSA certificate, truncated and empty DER; ValidPublicKeysFromEd25519 on empty lists and key lengths 0, 31, 32, 33, 64; a stress run "
+         "of 6 goroutines verifying a key in both lists and a key in neither and reading Keys() while Replace alternates between two lists "
+         "(3000 rounds; thorough 200000), and the same run under the Go race detector (go test -race). Distinct by SHA-1 of the input.",
+    explanation="The lock/access programs of every function in rpc/mtls/mtls.go that touches the allow-list are regenerated from the source by "
+                "tools/srcscan on every run; obligation C20_gen_programs_well_locked checks they obey the RWMutex discipline. Theorems C20_* then "
+                "prove, for any number of goroutines running well-locked programs under sync.RWMutex semantics and any schedule, that a write of "
+                "the list is never concurrent with another access (no data race) and that every verification reads the initial list or the "
+                "complete new list of some Replace (so a key in both is never rejected, a key in neither never accepted); and that verification "
+                "accepts exactly one parsable Ed25519 certificate with a listed key. The verification function is compared with the real "
+                "VerifyPeerCertificate and with full TLS 1.3 connections; the concurrency claims are exercised by a stress run and the race detector.",
+    assumptions=["sync.RWMutex provides the modelled exclusion; slice header reads and writes are atomic when not racing",
+                 "crypto/tls calls VerifyPeerCertificate with the peer's certificates on both sides when ClientAuth requires a certificate (exercised)",
+                 "x509 parsing and Ed25519 signatures are the Go standard library's (exercised, not modelled)"],
+    level_text="Coq theorems over a small-step model of goroutines under RWMutex semantics (all thread counts and schedules) whose programs are "
+               "translated from rpc/mtls/mtls.go on every run, plus the verification function; tied to the code by the translator, the handshake "
+               "matrix and the race detector.",
+    level_note="Trusted: Coq kernel + vm_compute; tools/srcscan translator (go/ast) of lock and field accesses; the RWMutex and memory-model "
+               "abstraction; crypto/tls, x509. Axioms: none.",
+)
+
 
 def load_known_findings(root):
     p = os.path.join(root, 'known_findings.jsonl')
